@@ -556,6 +556,7 @@ class Program:
                 if f.key not in self.fn:
                     self.fn[f.key] = f
         self._demangled = {}
+        self._bulk_done = False
         self.aliases = {}
         for m in modules:
             self.aliases.update(m.aliases)
@@ -581,7 +582,7 @@ class Program:
         need = [n for n in names if n not in self._demangled]
         if need:
             try:
-                out = subprocess.run(["llvm-cxxfilt-14"] + need, capture_output=True, text=True).stdout.split("\n")
+                out = subprocess.run(["llvm-cxxfilt-14"], input="\n".join(need) + "\n", capture_output=True, text=True).stdout.split("\n")
                 for n, d in zip(need, out):
                     self._demangled[n] = d.strip() or n
             except OSError:
@@ -590,6 +591,14 @@ class Program:
         return [self._demangled.get(n, n) for n in names]
 
     def dm(self, name):
+        if name not in self._demangled and not self._bulk_done:
+            # one llvm-cxxfilt process for every symbol of the program instead of one per query
+            self._bulk_done = True
+            names = set()
+            for m in self.modules:
+                names.update(m.functions)
+                names.update(m.declares)
+            self.demangle(sorted(names))
         return self.demangle([name])[0]
 
     def find(self, pattern, module=None):
